@@ -29,6 +29,10 @@ def run(chk):
               "with bounds_error, accumulation, hand-over along the y-group, ShiftAngle), run bit for bit (binary64) against the real method on stub regions on every run")
     qc = quad.correspondence(chk, 120 if chk.tier == "quick" else 1500, ["zshift"], "zshift")
     nq = len(qc[0]) if qc else 0
+    # ShiftTorsion = DDX(dphidy): theories/Model_Stencil.v (PrimFloat instance) against the real MeshRegion.DDX / DDY on stub regions
+    from props import stencil
+    chk.trust("hand model theories/Model_Stencil.v of MeshRegion.DDX / DDY (cell values, interior / boundary / shared faces), run bit for bit against the real methods on stub regions")
+    nq += stencil.correspondence(chk, 60 if chk.tier == "quick" else 600)
     # an option that only C06's relations can be checked under (it deliberately modifies Bpxy at the y-faces next to an X-point, so the field
     # oracles of other properties do not apply): dphidy must be computed from the Bpxy that is written to the file.  Needs Bp > 0 for the cap to act.
     extra = [corpus.tok("lsn_neg_capBp", "lsn", corpus.SN, sign=-1.0, options=dict(cap_Bp_ylow_xpoint=True), must_build=True)]
